@@ -222,6 +222,8 @@ def check_assembly(run, pkg, attrs):
                            "mass-weighted translations are no longer annihilated", loc=loc_of(it, e), sound=True)    # the dict's values/keys are consumed positionally
                     break
     if len(pre) != 1:
+        if mass_factor_fallback(run, it, fi, fq, ex, SNAP, PT, NP):
+            return
         raise AnalysisError(f"{fq}: mass prefactor table store not found ({len(pre)})")
     pe = pre[0]
     PRE = pe.data["target"][1]
@@ -479,3 +481,67 @@ def check_assembly(run, pkg, attrs):
         okw = eqv(w, ("call", "numpy.where", (("cmp", ">", evals, C(0)), ("call", "numpy.sqrt", (evals,), ()), evals), ()))
         run.ob("R-ALG", fq, "frequencies", okw, "omega = sqrt(lambda) for lambda > 0 (non-positive eigenvalues reported as they are)", show(w)[:100],
                witness=None if okw else "frequency is not the square root of the eigenvalue", loc=loc_of(it, fr), sound=True)
+
+
+def mass_factor_fallback(run, it, fi, fq, ex, SNAP, PT, NP) -> bool:
+    """No type-pair prefactor table: the scalar that multiplies each block is read off the block store and evaluated on a concrete
+    five-particle frame (types 2,1,3,1,2; masses 1, 4, 9) for every ordered pair of particles; it must be 1/m_i on the diagonal
+    block and 1/sqrt(m_i m_j) on the off-diagonal one.  Returns False when the stores are not understood."""
+    import numpy as np
+    from .. import concrete as _cc
+    try:
+        import pandas as _pd
+        _cc.FUNCS.setdefault("pandas.Series", _pd.Series)
+        _cc.METHODS.add(".map")
+    except Exception:  # noqa
+        pass
+    blocks = [e for e in stores(it) if e.data["target"][2][0] == "tuple" and len(e.data["target"][2][1]) == 2 and all(x[0] == "slice" for x in e.data["target"][2][1])]
+    if len(blocks) != 2 or len(blocks[0].loops) != 2:
+        return False
+    Li, Lj = (it.loops[l] for l in blocks[0].loops)
+    I, J = Li.target, Lj.target
+    types = np.array([2, 1, 3, 1, 2])
+    masses = {1: 1.0, 2: 4.0, 3: 9.0}
+
+    def factors(v):
+        if v[0] == "bin" and v[1] == "*":
+            return factors(v[2]) + factors(v[3])
+        return [v]
+    done = 0
+    for ev in blocks:
+        fs = factors(ex(ev.data["value"]))
+        scal = [f for f in fs if not any(x[0] == "call" and isinstance(x[1], str) and x[1].endswith("pair_matrix") for x in walk(f))]
+        if not scal or len(scal) == len(fs):
+            return False
+        # diagonal block: row and column slices mention the same loop variable only
+        tg = ev.data["target"][2][1]
+        vars_ = [{x for x in walk(ex(sl)) if x in (I, J)} for sl in tg]
+        kind = "diagonal" if vars_[0] == vars_[1] else "off-diagonal"
+        bad = None
+        try:
+            for a in range(5):
+                for b in range(5):
+                    if a == b:
+                        continue
+                    env = {("sym", "masses"): masses, ("attr", ("sym", "self"), "masses"): masses, PT: types, NP: 5, I: a, J: b}
+                    val = 1.0
+                    for f in scal:
+                        val = val * float(_cc.ev(f, env))
+                    rowp = a if I in vars_[0] else b
+                    colp = a if I in vars_[1] else b
+                    want = 1.0 / np.sqrt(masses[types[rowp]] * masses[types[colp]])
+                    if abs(val - want) > 1e-12:
+                        bad = (f"types {types.tolist()}, masses {masses}: the {kind} block of particles ({rowp}, {colp}) [types {types[rowp]}, {types[colp]}] is scaled by {val:.6g}, "
+                               f"1/sqrt(m_{types[rowp]} m_{types[colp]}) = {want:.6g}")
+                        break
+                if bad:
+                    break
+        except Exception as e:  # noqa
+            run.ob("R-IDX", fq, f"{kind} block:prefactor", None, "mass factor of the block evaluated on a concrete frame", f"not evaluable: {type(e).__name__}: {str(e)[:80]}", loc=loc_of(it, ev))
+            done += 1
+            continue
+        run.ob("R-IDX", fq, f"{kind} block:prefactor", bad is None, f"the {kind} block of particles (p, q) is scaled by 1/sqrt(m[type(p)] m[type(q)]) "
+               "(mass factor read off the block store, evaluated for all ordered pairs of a five-particle frame with three species)",
+               " x ".join(show(f)[:50] for f in scal), witness=bad, loc=loc_of(it, ev), sound=True)
+        done += 1
+    return done == 2
